@@ -288,8 +288,12 @@ example : parseInto true ⟨[.token 1, .array 3, .end_ 1, .token 9], 3⟩ [0x82,
 /-- **The key kind is unobservable** (the dimension the seeded defect C06_r7_2 lived in).  For any two
 well-formed scalar lexemes `k1`, `k2` — of any of the ten kinds: id, quoted, unquoted, i32, u32, i64, u64,
 f32, f64, bool — and EVERY continuation `rest` (in particular `= { …`), the inputs `k1 rest` and `k2 rest`
-are both rejected with the same error, or both accepted with tapes that agree position by position except
-that where the first has `k1`'s token the second has `k2`'s (`RelT`).  So the four key-kind fast paths of
+are both rejected with the same error, or both accepted with tapes of the same length related by `RelT`:
+at EVERY position the two tokens are equal, or the first is `k1.tok` and the second `k2.tok`.  NB what the
+relation allows: it does not pin the swap to the key position or to one occurrence (the key can move — a
+root that turns mixed gets a `MixedContainer` marker inserted in front of it — and can vanish as the odd
+token of an only_empties rewrite); a token of `rest` that happens to equal `k1.tok` is matched by the same
+token (both tapes come from the same `rest`), but `RelT` as a predicate would also admit the swapped pair there.  So the four key-kind fast paths of
 the optimised parser (token id, quoted, i32, and "none" for the other kinds) are unobservable relative to
 each other, not only relative to the reference; a container is typed and delimited the same way whatever
 the kind of the key in front of it. -/
